@@ -121,6 +121,8 @@ class BtProp(Prop):
     keep_own = True        # own-state column of N
     keep_cur = False       # current-child column of N
     exhaustive = False     # thorough tier adds the exhaustive small-scope block
+    stream_share = 0.0     # share of scenarios whose implementation side runs with the blackboard activity stream on
+    inner_stop = 0.0       # share of stop operations aimed at a random inner behaviour (external stop(INVALID))
     invalid_block = None   # (profile, clauses not judged): extra implementation-only scenarios with INVALID outcomes
     assumptions = ["visitors / handlers do not mutate the tree mid-tick", "user callbacks do not raise",
                    "integer clock (fake time module installed by the harness)",
@@ -142,9 +144,13 @@ class BtProp(Prop):
         out = []
         for i in range(n):
             prof = self.profile_for(rng)
+            if self.inner_stop:
+                prof = bt_gen.Profile(**dict(vars(prof), p_inner_stop=self.inner_stop))
             if tier == "thorough" and i % 4 == 0:
                 prof = bt_gen.Profile(**dict(vars(prof), max_nodes=25, max_ops=40, max_depth=5))
             out.append(bt_gen.gen_scenario(rng, prof, "%s_%s_%d" % (self.pid, tier[0], i)))
+            if self.stream_share and rng.random() < self.stream_share:
+                out[-1].meta["stream"] = True      # implementation side runs with the activity stream enabled
         if tier == "thorough" and self.exhaustive:
             out += exhaustive_block(self.pid)
         if self.invalid_block is not None and tier != "search":
@@ -281,8 +287,9 @@ def interrupted_later(sh, o, i):
 @register
 class C01(BtProp):
     pid = "C01"
+    inner_stop = 0.5
     exhaustive = True
-    profiles = [("core", 0.6), ("par", 0.15), ("dec", 0.15), ("stock", 0.10)]
+    profiles = [("core", 0.45), ("seq", 0.15), ("par", 0.15), ("dec", 0.15), ("stock", 0.10)]
     keep = "TN"
     keep_events = "IUX"
     keep_own = False
@@ -405,6 +412,7 @@ class C01(BtProp):
 @register
 class C02(BtProp):
     pid = "C02"
+    inner_stop = 0.35
     exhaustive = True
     profiles = [("core", 0.5), ("par", 0.2), ("dec", 0.2), ("stock", 0.1)]
     keep = "TN"
@@ -459,7 +467,7 @@ def composite_entries(sh, o, kind):
 class C03(BtProp):
     pid = "C03"
     exhaustive = True
-    invalid_block = ("seq", ["memory-skip"])
+    invalid_block = ("seq", ["memory-skip", "entry-reset-deep"])
     profiles = [("seq", 0.7), ("coreprobe", 0.3)]
     keep = "TN"
     keep_events = "EUXY"
@@ -518,6 +526,14 @@ class C03(BtProp):
             if interrupted_later(sh, o, q):
                 continue
             stop_at = start + len(mine) - 1
+            if fresh:
+                # fresh entry resets the whole subtree: whatever was not ticked in this pass shows INVALID, at any depth
+                ent_all = set(entered(o))
+                for x in sh.subtree(q):
+                    if x != q and x not in ent_all and st_of(o, x) != "I":
+                        out.append(viol("entry-reset-deep", "sequence %d fresh entry: %d below it was not ticked in this pass "
+                                        "but shows %s" % (q, x, st_of(o, x))))
+                        break
             # children after the stopping point are not ticked; fresh entry resets everything
             for j, c in enumerate(kids):
                 if j > stop_at:
@@ -813,7 +829,22 @@ class C09(BtProp):
         for d in [i for i in ent if sh.kind(i) == "D"]:
             k = dec_kind(sh, d)
             c = sh.kids[d][0]
-            if k in ("oneshot", "guard", "retry", "repeat", "cond", "timeout"):
+            if k == "guard":
+                # an EternalGuard whose condition is not false (anything but False / FAILURE) ticks its child exactly
+                # once and mirrors it; when it is false it fails without ticking the child
+                gv = dict((int(a), b in ("1", "S", "R")) for a, b in
+                          (p.split(":") for t in o.op.split() if t.startswith("g=") and len(t) > 2
+                           for p in t[2:].split(",")))
+                is_open = gv.get(int(str(sh.node[d][2]).split(":")[1]), True)
+                n_child = sum(1 for e in ent if e == c)
+                if is_open and (n_child != 1 or Y.get(d) != Y.get(c)):
+                    out.append(viol("guard-open", "EternalGuard %d condition not false: child entered %d times, child %s, "
+                                    "guard %s" % (d, n_child, Y.get(c), Y.get(d))))
+                if not is_open and (n_child != 0 or Y.get(d) != "F"):
+                    out.append(viol("guard-closed", "EternalGuard %d condition false: child entered %d times, guard %s"
+                                    % (d, n_child, Y.get(d))))
+                continue
+            if k in ("oneshot", "retry", "repeat", "cond", "timeout"):
                 continue
             n_child = sum(1 for e in ent if e == c)
             if n_child != 1:
@@ -919,7 +950,7 @@ class C10(BtProp):
                 for t in o.op.split():
                     if t.startswith("t="):
                         now = int(t[2:])
-                guards = dict((int(a), b == "1") for a, b in
+                guards = dict((int(a), b in ("1", "S", "R")) for a, b in
                               (p.split(":") for t in o.op.split() if t.startswith("g=") and len(t) > 2
                                for p in t[2:].split(",")))
                 Y = yielded(o)
@@ -973,6 +1004,12 @@ class C10(BtProp):
                     if got != want:
                         out.append(viol(k, "%s %d at `%s`: child %s, returned %s, expected %s (ref %s)"
                                         % (sh.node[d][2], d, o.op, cs, got, want, r), dec=k))
+                    if k == "timeout" and cs in ("S", "F") and child_ticked and not interrupted_later(sh, o, d) \
+                            and st_of(o, c) != cs:
+                        # the child is cancelled exactly when it is still RUNNING past the deadline; a child that
+                        # completed by itself keeps its result
+                        out.append(viol("timeout-cancels-finished", "Timeout %d: child %d completed %s on this tick but "
+                                        "shows %s afterwards" % (d, c, cs, st_of(o, c))))
                     if k == "oneshot" and r["final"] is None and got in ("S", "F"):
                         if got == "S" or parts[1] == "1":
                             r["final"] = got
@@ -1026,6 +1063,9 @@ class C19(BtProp):
                     out.append(viol("tip-inside", "tip of %d is %d, outside its subtree" % (i, t)))
                 elif st_of(o, t) == "I":
                     out.append(viol("tip-live", "tip of %d is %d which is INVALID" % (i, t)))
+        if 0 in o.P and o.P.get(0) != o.P.get(sh.root):
+            # tip() of a tree is tip() of its root: None exactly when the root is INVALID
+            out.append(viol("tree-tip", "BehaviourTree.tip() is %s but the root's tip is %s" % (o.P.get(0), o.P.get(sh.root))))
         if o.op.startswith("tick") and all(sh.kind(i) in ("Q", "S", "L") for i in sh.node):
             leaves = [e[1] for e in o.T if e[0] == "Y" and not sh.kids[e[1]]]   # childless behaviours
             want = leaves[-1] if leaves else (sh.root if st_of(o, sh.root) != "I" else None)
@@ -1076,6 +1116,7 @@ WRITERS = ("set", "unset", "cvs")
 @register
 class C17(BtProp):
     pid = "C17"
+    stream_share = 0.3
     profiles = [("stock", 1.0)]
     keep = "TNW"
     keep_events = "IUX"
@@ -1097,11 +1138,23 @@ class C17(BtProp):
         # ZeroDivisionError escaping a tick of stock behaviours breaks the documented rules
         may_raise = any(n[0] == "L" and ((n[2][0] == "sq" and str(n[2][1]) in ("", "-") and str(n[2][2]) == "-")
                                          or (n[2][0] == "sen" and int(n[2][1]) == 0)) for n in sh.node.values())
+        # KeyError out of a tick is documented for BlackboardToStatus on a missing variable and for nested writes
+        # (set / StatusToBlackboard with key.attr) on a missing key
+        may_key = any((n[0] == "L" and (n[2][0] == "b2s" or (n[2][0] == "set" and str(n[2][2]) != "-")))
+                      or (n[0] == "D" and str(n[2]).startswith("s2b:") and str(n[2]).split(":")[2] != "-")
+                      for n in sh.node.values())
         for o in obs:
             if not o.ok:
                 if o.err == "internal" and o.op.startswith("tick") and not may_raise:
                     out.append(viol("stock-raised", "`%s` raised an IndexError / ValueError / AssertionError / "
                                     "ZeroDivisionError out of the tick" % o.op[:40]))
+                if o.err == "AttributeError" and o.op.startswith("tick"):
+                    # a missing (nested) variable is a FAILURE / RUNNING / KeyError by the documented rules, never an
+                    # AttributeError out of the tick
+                    out.append(viol("stock-raised", "`%s` raised AttributeError out of the tick" % o.op[:40]))
+                if o.err == "KeyError" and o.op.startswith("tick") and not may_key:
+                    out.append(viol("stock-raised", "`%s` raised KeyError although no behaviour in the tree reads a "
+                                    "variable that must exist" % o.op[:40]))
                 break
             if o.op.startswith("tick"):
                 now = 0
